@@ -49,6 +49,13 @@ def run(ck):
                        "equal orientation and reference (as C08.4) - the walk assumes monotone query label numbers")
     from .c08 import _eligibility
     _eligibility(ck, {}, None, rule="C03.7", wiring=False)
+    ck.clause("C03.8", "the pairs walked are in reference order and unique: segments are resolved pairwise along the chain and a "
+                       "joined record holds only the two resolved segments (as C01.3 / C08.6)")
+    from .c01 import pairwise_pass
+    pairwise_pass(ck, "C03.8")
+    from ..report import RuleView
+    from . import c08
+    c08._joined_row(RuleView(ck, {"C08.6": "C03.8"}))
     row = p.find_class("AlignmentResultRow")
     cigar = p.lookup_method(row, "cigarString", None)
     if cigar is None or not cigar.is_property:
